@@ -134,7 +134,7 @@ def clean_scenarios(tier="quick"):
             files = {"dd1.in": "ninja_dyndep_version = 1\nbuild out1 | out1.imp: dyndep\n",
                      "dd2.in": "ninja_dyndep_version = 1\nbuild out2 | out2.imp: dyndep\n"}
         T.append(scenario("c18/" + name, "c18", variants, files=files, ops=ops + tools, init=[build],
-                          depth=2 if tier == "quick" else 3, tags=["clean"]))
+                          depth=3 if tier == "quick" else 4, tags=["clean"]))
     # a build log past the recompaction threshold with a stale output that still exists on disk
     v = Variant("v0", [Stmt("a", ex=["s"]), Stmt("b", ex=["a"])])
     log = "# ninja log v7\n"
@@ -176,7 +176,7 @@ def regen_scenario(tier):
     for t in tools:
         t["no_expand"] = True
     return scenario("c19/manifest_regen", "c19", [va, vb], files={"build.ninja.in": va.manifest(), "s": "s-v0\n"}, ops=ops + tools,
-                    init=[4], depth=3 if tier == "quick" else 4, tags=["readonly", "manifest-regen"])
+                    init=[4], depth=4 if tier == "quick" else 5, tags=["readonly", "manifest-regen"])
 
 
 def readonly_scenarios(tier="quick"):
@@ -219,7 +219,7 @@ def readonly_scenarios(tier="quick"):
             files = {"dd1.in": "ninja_dyndep_version = 1\nbuild out1 | out1.imp: dyndep\n",
                      "dd2.in": "ninja_dyndep_version = 1\nbuild out2 | out2.imp: dyndep\n"}
         T.append(scenario("c19/" + name, "c19", variants, files=files, ops=ops + tools, init=[],
-                          depth=3 if tier == "quick" else 4, tags=["readonly"], builddir="bd" if name.startswith("builddir") else ""))
+                          depth=4 if tier == "quick" else 5, tags=["readonly"], builddir="bd" if name.startswith("builddir") else ""))
     # compdb with every byte a manifest can carry in a command / description / path
     stmts = []
     for b in range(1, 256):
